@@ -1348,11 +1348,17 @@ func (r *fhRun) run(only map[int]bool) {
 			// whatever was edited, added, removed or renamed since went unnoticed (independent of how the
 			// code encodes the list; `shift=1`: the name+content bytes of the present tree, back to back, are
 			// those of an earlier attempt — the boundary-shift collision of the un-delimited stream)
-			if method == "checksum" && len(t.Sources) > 0 && !good {
+			// (method timestamp as well: C05 demands a rerun after ANY edit, addition, removal or rename; what
+			// the method cannot see — a change that leaves no source newer than the last attempt, `srcnewer=0` —
+			// is the open finding C05-timestamp-misses-non-mtime-changes; `op=` names the class of the change
+			// since the last attempt)
+			if (method == "checksum" && !good || method == "timestamp") && len(t.Sources) > 0 {
 				seen, any, shift := false, false, "0"
+				last := ""
 				for _, a := range r.log {
 					if a.task == ti {
 						any = true
+						last = a.ideal
 						if a.ideal == ideal {
 							seen = true
 						}
@@ -1362,7 +1368,7 @@ func (r *fhRun) run(only map[int]bool) {
 					}
 				}
 				if any && !seen {
-					r.viol = append(r.viol, fhViol{"c05", k, ti, facts("change-not-detected") + " samebases=0 shift=" + shift})
+					r.viol = append(r.viol, fhViol{"c05", k, ti, facts("change-not-detected") + " samebases=0 shift=" + shift + " op=" + fhOpClass(last, ideal)})
 				}
 			}
 		}
@@ -1454,6 +1460,50 @@ func fhNorm(s string) string {
 		}
 	}
 	return sb.String()
+}
+
+// fhOpClass: how the list of (path, content) changed between two ideal fingerprints: `removal` (paths
+// gone, the rest unchanged), `addition`, `rename` (the same contents under other paths), `edit` (the same
+// paths, other contents), `mixed`
+func fhOpClass(old, now string) string {
+	parse := func(s string) map[string]string {
+		m := map[string]string{}
+		parts := strings.Split(s, "\x00")
+		for i := 0; i+1 < len(parts); i += 2 {
+			m[parts[i]] = parts[i+1]
+		}
+		return m
+	}
+	a, b := parse(old), parse(now)
+	gone, added, edited := 0, 0, 0
+	var ca, cb []string
+	for p, c := range a {
+		ca = append(ca, c)
+		if c2, ok := b[p]; !ok {
+			gone++
+		} else if c2 != c {
+			edited++
+		}
+	}
+	for p, c := range b {
+		cb = append(cb, c)
+		if _, ok := a[p]; !ok {
+			added++
+		}
+	}
+	sort.Strings(ca)
+	sort.Strings(cb)
+	switch {
+	case edited == 0 && added == 0 && gone > 0:
+		return "removal"
+	case edited == 0 && gone == 0 && added > 0:
+		return "addition"
+	case edited > 0 && gone == 0 && added == 0:
+		return "edit"
+	case edited == 0 && gone > 0 && added > 0 && strings.Join(ca, "\x00") == strings.Join(cb, "\x00"):
+		return "rename"
+	}
+	return "mixed"
 }
 
 // multiset of (base name, content) of an ideal fingerprint.  A change that keeps this multiset (a file
